@@ -237,6 +237,45 @@ def r17_10(run, model):
     run.floor("writes to the inherent method table examined", n, 1)
 
 
+def r17_11(run, model):
+    run.rule("R17.11", "the dyn wrapper calls the implementation under the name it was defined with: trait impl functions are named once "
+                       "(compile_match, from the source type `W[int32]`), mono rewrites the type stored in the coercion (`W__int32`), so the "
+                       "back end must not derive the impl name again from that rewritten type")
+    MONO = "crates/compiler/src/mono.rs"
+    GO = "crates/compiler/src/go/compile.rs"
+    rw = model.fn("rewrite_expr_types", MONO)
+    collapsed = False
+    for m in S.find(rw.body, "Match"):
+        for arm in m["arms"]:
+            if "EToDyn" in S.norm_ws(run.facts.text(MONO, arm["pat"]["sp"])):
+                body = S.norm_ws(run.facts.text(MONO, arm["body"]["sp"]))
+                collapsed = re.search(r"for_ty:\w+\.collapse_type_apps\(", body) is not None
+    g = model.fn("gen_dyn_wrap_fn", GO)
+    rederived = [c for c in S.calls(g.body, "trait_impl_fn_name")]
+    ok = not (collapsed and rederived)
+    run.ob("R17.11", "gen_dyn_wrap_fn|impl function name is not re-derived from a rewritten type", ok, site(GO, (rederived or [g.node])[0]["sp"]),
+           f"mono collapses EToDyn.for_ty: {collapsed}; the wrapper derives the name with trait_impl_fn_name: {bool(rederived)}",
+           witness="struct W[T] { v: T } impl Show for W[int32] {..}; let d: dyn Show = W { v: 1 }: the wrapper calls "
+                   "`trait_impl#Show#W__int32#show`, the function is defined as `trait_impl#Show#W[int32]#show`: undefined in Go")
+
+
+def r17_12(run, model):
+    run.rule("R17.12", "`x.m()` and `T::m(x)` choose the same method when a type has an impl for one instance and a generic impl: "
+                       "define_inherent_impl files a block under Exact(type) or Constr(name) and the two lookups prefer different keys, "
+                       "so a method present under both keys of one constructor has to be rejected when it is defined")
+    f = model.fn("define_inherent_impl", TOPLEVEL)
+    t = S.norm_ws(run.facts.text(TOPLEVEL, f.body["sp"]))
+    kinds = {k for k in ("Exact", "Constr") if re.search(r"InherentImplKey::" + k + r"\(", t)}
+    # an overlap test looks the method up under the *other* kind of key: a get/contains_key on inherent_impls besides the entry() that inserts
+    probes = [c for c in S.walk(f.body) if c["k"] == "MethodCall" and c["method"] in ("get", "contains_key", "iter", "keys")
+              and "inherent_impls" in S.norm_ws(run.facts.text(TOPLEVEL, c["recv"]["sp"]))]
+    ok = len(kinds) < 2 or bool(probes)
+    run.ob("R17.12", "define_inherent_impl|exact-instance and generic impls of one type are checked for overlap", ok, site(TOPLEVEL, f.node["sp"]),
+           f"key kinds used: {sorted(kinds)}; look-ups of already filed impls before inserting: {len(probes)}",
+           witness="impl Pair[int32, int32] { fn tag(self) -> string { \"exact\" } } impl[T] Pair[T, T] { fn tag(self) -> string { \"generic\" } }: "
+                   "p.tag() prints exact, Pair::tag(p) prints generic")
+
+
 def run(run, model):
     run.try_rule(r17_1, model)
     run.try_rule(r17_2, model)
@@ -244,6 +283,8 @@ def run(run, model):
     run.try_rule(r17_4, model)
     run.try_rule(r17_9, model)
     run.try_rule(r17_10, model)
+    run.try_rule(r17_11, model)
+    run.try_rule(r17_12, model)
     from rules import c01
     from lib import passes as P
     run.rule("R17.7", "every coercion to dyn gets its vtable: the collector that decides which vtable constructors and wrappers are generated "
